@@ -121,6 +121,38 @@ pub fn contexts(wlen: impl Fn(u32) -> u32, with_bom: bool) -> Vec<Space> {
     ]
 }
 
+/// Layer W: which bytes count as XML white space. Every pair of byte values (b1, b2), all 65 536
+/// of them, is placed where blanks are significant: after the DOCTYPE keyword, after a name in
+/// start / end tags, after a PI target / the `xml` of a declaration, and around text.
+pub fn ws_class() -> Space {
+    const TEMPLATES: [(&[u8], &[u8], &[u8]); 8] = [
+        (b"<!DOCTYPE", b"", b"x>"),
+        (b"</a", b"", b">"),
+        (b"<a>x</a", b"", b">y"),
+        (b"<a", b"", b"c='1'>"),
+        (b"<?p", b"", b"d?>"),
+        (b"<?xml", b"", b"?>"),
+        (b"<a>", b"x", b"</a>"),
+        (b"", b"", b"<a/>"),
+    ];
+    let nt = TEMPLATES.len() as u64;
+    Space {
+        name: "W.ws_class".to_string(),
+        desc: json!({"kind": "every byte pair (b1,b2) in blank-sensitive positions", "templates": TEMPLATES.iter().map(|t| format!("{}{{b1}}{}{{b2}}{}", lossy(t.0), lossy(t.1), lossy(t.2))).collect::<Vec<_>>()}),
+        total: nt * 65536,
+        gen: Box::new(move |i, out| {
+            let t = TEMPLATES[(i % nt) as usize];
+            let b = i / nt;
+            out.clear();
+            out.extend_from_slice(t.0);
+            out.push((b >> 8) as u8);
+            out.extend_from_slice(t.1);
+            out.push((b & 0xff) as u8);
+            out.extend_from_slice(t.2);
+        }),
+    }
+}
+
 /// Layer E: the repository's sample documents (top level of tests/documents).
 pub fn corpus() -> Vec<(String, Vec<u8>)> {
     let dir = "/repo/tests/documents";
